@@ -121,6 +121,7 @@ LinkLayer_init(LinkLayer self, int address, SerialTransceiverFT12 transceiver, L
         self->address = address;
         self->transceiver = transceiver;
         self->linkLayerParameters = linkLayerParameters;
+        self->userDataSize = 0;
 
         self->dir = false;
 
